@@ -29,7 +29,7 @@ LineText(ln) ==
     [] ln.shape = "LEAD" -> " " \o TimeTokens[ln.t1] \o " " \o TimeTokens[ln.t2] \o " " \o LabelTokens[ln.lab]
     [] ln.shape = "DBL"  -> TimeTokens[ln.t1] \o "  " \o TimeTokens[ln.t2] \o " " \o LabelTokens[ln.lab]
     [] ln.shape = "TAB"  -> TimeTokens[ln.t1] \o "\t" \o TimeTokens[ln.t2] \o "\t" \o LabelTokens[ln.lab]
-\* "skip" | "ok" | "err"
+\* "skip" | "ok" | "err" | "any" (outcome delegated entirely to jlabel)
 Classify(ln) ==
   CASE ln.shape = "E"    -> "skip"
     [] ln.shape = "L"    -> IF LabelOK(ln.lab) THEN "ok" ELSE "err"
@@ -40,10 +40,12 @@ Classify(ln) ==
     [] ln.shape = "SP"   -> "err"            \* two empty tokens
     [] ln.shape = "LEAD" -> "err"            \* empty start time
     [] ln.shape = "DBL"  -> "err"            \* empty end time
-    [] ln.shape = "TAB"  -> "err"            \* tabs do not separate
+    [] ln.shape = "TAB"  -> "any"            \* tabs do not separate: the whole line is handed to jlabel as one label token,
+                                             \* and jlabel accepts tabs inside the first phoneme - ok or err, but never a panic
 Shapes == {"E", "L", "TTL", "TT", "TL", "TTLX", "SP", "LEAD", "DBL", "TAB"}
 \* an utterance is an error iff some line is; otherwise its labels are those of the non-skipped lines, in order
 UttResult(lines) == IF \E i \in 1..Len(lines) : Classify(lines[i]) = "err" THEN [kind |-> "err", labels |-> <<>>]
+                    ELSE IF \E i \in 1..Len(lines) : Classify(lines[i]) = "any" THEN [kind |-> "any", labels |-> <<>>]
                     ELSE [kind |-> "ok", labels |-> SelectSeq([i \in 1..Len(lines) |-> IF Classify(lines[i]) = "ok" THEN lines[i].lab ELSE 0], LAMBDA x : x # 0)]
 \* fixed expectations about the delegates (if one fails, the oracle or the table is broken: tool error, not a verdict)
 OracleSane == TimeOK(1) /\ TimeOK(2) /\ ~TimeOK(10) /\ ~TimeOK(11) /\ LabelOK(1) /\ LabelOK(2) /\ ~LabelOK(4)
